@@ -266,6 +266,10 @@ def rich_prefix(nblocks=2, same_names=True):
         P.append({"op": "link", "k": "tag", "t": b, "role": "sources", "target": b * 3 + 2})
         P.append({"op": "link", "k": "mtag", "t": b, "role": "sources", "target": b * 3})
         P.append({"op": "link", "k": "array", "t": a0, "role": "sources", "target": b * 3 + 1})
+        # several members of ONE source subtree in one list (deleting the subtree root must drop all of them)
+        P.append({"op": "link", "k": "array", "t": a0, "role": "sources", "target": b * 3 + 2})
+        P.append({"op": "link", "k": "array", "t": a0, "role": "sources", "target": b * 3})
+        P.append({"op": "link", "k": "group", "t": b * 2, "role": "sources", "target": b * 3 + 2})
         P.append({"op": "mk_feature", "on": "tag", "t": b, "da": a0 + 4, "lt": "untagged"})
         P.append({"op": "mk_feature", "on": "mtag", "t": b, "da": a0 + 4, "lt": "indexed"})
         P.append({"op": "mk_feature", "on": "mtag", "t": b, "da": a0, "lt": "tagged"})
